@@ -24,8 +24,10 @@ def s(xs):
 
 
 def cfg(name, kinds, faults, script="none", conns=(0, 1), versions=(20,), maxcookie=3, budget=3, caps="CapsOne",
-        v0=20, v1=20, cserials=(0,), events=(0,), wrong=(), inq=1, objuuids=(101, 102), initserial=0, wrap=False):
-    text = f"""SPECIFICATION Spec
+        v0=20, v1=20, cserials=(0,), events=(0,), wrong=(), inq=1, objuuids=(101, 102), initserial=0, wrap=False,
+        replay=None):
+    """replay = fault budget: the configuration is for MC_Replay.tla (history variable, behaviours printed)."""
+    text = f"""SPECIFICATION {"Spec" if replay is None else "RSpec"}
 CONSTANTS
   B = 4
   Conns = {s(conns)}
@@ -49,8 +51,8 @@ CONSTANTS
   V0 = {v0}
   V1 = {v1}
 {"SerialWrap <- SW3" if wrap else ""}
-VIEW view
-INVARIANTS ObserverOk NoPanicSite BoundaryConsistent FlagsOk StoppedClean
+{"VIEW view" if replay is None else f"  FaultBudget = {replay}"}
+INVARIANTS {"ObserverOk NoPanicSite BoundaryConsistent FlagsOk StoppedClean" if replay is None else "Emit"}
 CHECK_DEADLOCK FALSE
 """
     open(os.path.join(HERE, name + ".cfg"), "w").write(text)
@@ -81,3 +83,25 @@ cfg("MC_Listeners_thorough", LSTS, ["ends", "dropped"], script="lst", budget=4)
 cfg("MC_Lifecycle_thorough", sorted(set(REG[:5] + ["CallFunction", "SubscribeEvent", "SubscribeAllEvents", "CreateChannel", "ClaimChannelEnd", "CreateBusListener", "StartBusListener"])),
     ALLF, script="svc", budget=3, maxcookie=4, conns=(0, 1, 2))
 cfg("MC_Abuse_thorough", ALL, ["dropped"], script="svc", budget=3, maxcookie=4, wrong=WRONG, caps="CapsOne")
+
+
+# replay configurations (MC_Replay.tla): every behaviour is printed and replayed on the real broker.
+# R_*   exhaustive enumeration (two free messages in batches of up to two, one fault)
+# RS_*  deeper behaviours drawn by TLC's simulator from the same state-aware generator
+LIFE = sorted(set(REG[:5] + ["CallFunction", "SubscribeEvent", "SubscribeAllEvents", "CreateChannel", "ClaimChannelEnd", "CreateBusListener", "StartBusListener"]))
+for (nm, kinds, faults, kw) in [
+        ("Registry", REG, ["ends", "dropped", "sdb", "sdi"], dict(maxcookie=4)),
+        ("Calls", CALLS, ["ends", "dropped"], dict(script="svc", cserials=(0, 1))),
+        ("Events", EVENTS, ["ends", "dropped"], dict(script="svc", events=(0, 1))),
+        ("Channels", CHANS, ["ends", "dropped"], dict(script="chan", maxcookie=2, caps="CapsMany")),
+        ("Listeners", LSTS, ["ends", "dropped"], dict(script="lst")),
+        ("Lifecycle", LIFE, ALLF, dict(script="svc", maxcookie=4)),
+        ("Abuse", ALL, ["dropped"], dict(script="svc", maxcookie=4, wrong=WRONG)),
+        ("Versions", GATED, [], dict(script="svc", v0=14, v1=20, versions=(14, 17, 20))),
+]:
+    cfg("R_" + nm, kinds, faults, budget=2, inq=2, replay=1, **kw)
+    kw3 = dict(kw)
+    if "conns" not in kw3:
+        kw3["conns"] = (0, 1, 2)
+    kw3["maxcookie"] = max(kw3.get("maxcookie", 3), 5)
+    cfg("RS_" + nm, kinds, faults, budget=7, inq=3, replay=2, **kw3)
